@@ -107,8 +107,8 @@ func applyJSON(doc document.Document, entry interface{}) (document.Document, err
 	return document.FromBytes(docBytes)
 }
 
-// applyJSONPatches applies the patches and turns a panic of the JSON patch engine (e.g. array index "-1",
-// "test" without a value) into an error so that a hostile patch cannot crash resolution.
+// applyJSONPatches applies the patches in order and turns a panic of the JSON patch engine (e.g. array index
+// "-1", "test" without a value) into an error so that a hostile patch cannot crash resolution.
 func applyJSONPatches(jsonPatches jsonpatch.Patch, docBytes []byte) (result []byte, err error) {
 	defer func() {
 		if r := recover(); r != nil {
@@ -117,7 +117,17 @@ func applyJSONPatches(jsonPatches jsonpatch.Patch, docBytes []byte) (result []by
 		}
 	}()
 
-	return jsonPatches.Apply(docBytes)
+	// Operations are applied one at a time on re-serialized bytes: the engine's "copy" shares the copied node
+	// with its source, and a later operation that moves or copies that node below itself would otherwise build
+	// a cyclic document (unbounded recursion when it is serialized).
+	for _, op := range jsonPatches {
+		docBytes, err = jsonpatch.Patch{op}.Apply(docBytes)
+		if err != nil {
+			return nil, err
+		}
+	}
+
+	return docBytes, nil
 }
 
 func applyRecover(replaceDoc interface{}) (document.Document, error) {
